@@ -1,7 +1,7 @@
 (* Correspondence for C01: the case carries the implementation's run list and
    the implementation's str(f). *)
 From Curtsies Require Import Model.Base Gen.Tables Model.Render Spec.Sgr.
-Open Scope N_scope.
+Local Open Scope N_scope.
 
 Module C01.
 Definition case := (fmtstr * str)%type.
